@@ -395,9 +395,11 @@ def gen_cases(rng, tier):
                 continue
             al = _alphabet(g)
             first = [a for a in al if a[0] in ("save", "crash")]
-            last = [["load"], ["reopen"], ["save", "ok"], ["save", "pf"], ["delete"]] + [x for x in al if x[0] == "foreign"]
+            alone = [x for x in al if not (x[0] == "foreign" and len(x) == 3)]
+            last = [["load"], ["reopen"], ["save", "ok"], ["save", "pf"], ["delete"]] + [x for x in alone if x[0] == "foreign"] \
+                + [x for x in al if x[0] == "foreign" and len(x) == 3 and x[1] == "diffcomp"]
             for a in first:
-                for b in al:
+                for b in alone:
                     for c in last:
                         yield _case(g, f, _number([a, b, c]))
 
